@@ -291,20 +291,20 @@ func writeEvidence(prop *Property, tier string, all, failed, knownHit []eng.Obli
 		"coverage": map[string]any{
 			"explanation": "Static analysis of the type-checked source of /repo (go/packages + go/cfg dominance / path search, module-wide call and field-write index" +
 				", tables over go/types constants). Decided clauses: " + prop.Covers + " NOT decided: " + prop.NotCover,
-			"obligations":         len(all),
-			"discharged":          discharged,
-			"evaluations":         len(all),
-			"distinct_nontrivial": len(distinct),
-			"rule":                "one obligation per rule instance (rule + resolved function/field/constant + clause); distinct = distinct keys; every obligation inspects resolved constructs of the current tree, none is trivial by construction (a rule that finds no instance fails)",
-			"rules":               rules,
-			"functions_analysed":  eng.SortedKeys(fns),
-			"n_functions":         len(fns),
+			"obligations":                  len(all),
+			"discharged":                   discharged,
+			"evaluations":                  len(all),
+			"distinct_nontrivial":          len(distinct),
+			"rule":                         "one obligation per rule instance (rule + resolved function/field/constant + clause); distinct = distinct keys; every obligation inspects resolved constructs of the current tree, none is trivial by construction (a rule that finds no instance fails)",
+			"rules":                        rules,
+			"functions_analysed":           eng.SortedKeys(fns),
+			"n_functions":                  len(fns),
 			"call_or_write_sites_examined": callSites,
-			"packages_loaded":     pkgs,
-			"known_findings_hit":  len(knownHit),
-			"samples":             samples,
-			"exhaustive":          false,
-			"checker_cmd":         fmt.Sprintf("bin/check %s %s", prop.ID, tier),
+			"packages_loaded":              pkgs,
+			"known_findings_hit":           len(knownHit),
+			"samples":                      samples,
+			"exhaustive":                   false,
+			"checker_cmd":                  fmt.Sprintf("bin/check %s %s", prop.ID, tier),
 		},
 		"assumptions": []string{
 			"go/cfg has no edges for panics: a path leaving a function by panic is not a success return",
